@@ -346,6 +346,13 @@ func (svr *Server) Unsubscribe(topic string, onPublish *OnPublishFunc) error {
 // Close terminates the server by shutting down all the client connections and closing
 // the listener. It will, as best it can, clean up after itself.
 func (svr *Server) Close() error {
+	// Close may be called while ListenAndServe, started in another goroutine, is
+	// still setting the server up (or has not got to it yet): take part in the
+	// one-time set-up instead of using what it is in the middle of creating.
+	if err := svr.checkConfiguration(); err != nil {
+		return err
+	}
+
 	// By closing the quit channel, we are telling the server to stop accepting new
 	// connection.
 	close(svr.quit)
